@@ -495,7 +495,7 @@ def _go_extend(f):
 
 
 # ----------------------------------------------------------------------------- known finding classes (by construction of the input)
-NUMERIC_KINDS = frozenset('ihgf')
+NUMERIC_KINDS = frozenset('igf')          # int64 / float64: the only dtypes whose axis-0 reductions are layout independent
 REDUCTIONS = ('sum', 'prod', 'min', 'max', 'mean', 'median', 'std', 'var', 'all', 'any', 'cumsum', 'cumprod')
 STRING_RESULT_OPS = frozenset(('op:mul-series', 'op:mul-array2d', 'op:mul2', 'op:addstr', 'astype(str)', 'astype[list](str)', 'via_str.upper'))
 FILL_OPS = frozenset(('fillna(str)', 'assign.bloc(frame)'))
